@@ -432,7 +432,7 @@ class Bits(object):
     def __radd__(self,lvalue):
         return (self + lvalue)
     def __rsub__(self,lvalue):
-        return Bits(lvalue,self.size)-self
+        return Bits(lvalue)-self
 
 #   operator // is used for concatenation:
     def __floordiv__(self,rvalue):
